@@ -552,6 +552,9 @@ class Transport(threading.Thread, ClosingContextManager):
         self.clear_to_send = threading.Event()
         self.clear_to_send_lock = threading.Lock()
         self.clear_to_send_timeout = 30.0
+        # serializes starting a key exchange (possibly from a user thread,
+        # see renegotiate_keys) against finishing the previous one
+        self._kex_state_lock = threading.RLock()
         # messages the transport thread itself wanted to send mid-kex; they
         # go out, in order, once the new keys are in place
         self._deferred_user_messages = []
@@ -2468,6 +2471,16 @@ class Transport(threading.Thread, ClosingContextManager):
         announce to the other side that we'd like to negotiate keys, and what
         kind of key negotiation we support.
         """
+        with self._kex_state_lock:
+            if self.local_kex_init is not None:
+                # Our KEXINIT for the exchange in progress is already out
+                # (eg renegotiate_keys() called from a user thread while the
+                # previous exchange is still finishing): a second one would
+                # derail it. The caller waits for that exchange instead.
+                return
+            self._send_kex_init_locked()
+
+    def _send_kex_init_locked(self):
         self.clear_to_send_lock.acquire()
         try:
             self.clear_to_send.clear()
@@ -2964,6 +2977,10 @@ class Transport(threading.Thread, ClosingContextManager):
         if self.kex_engine is None or self.K is None:
             # Nothing was negotiated that these keys could come from.
             raise SSHException("Received NEWKEYS outside of a key exchange")
+        with self._kex_state_lock:
+            self._finish_kex(m)
+
+    def _finish_kex(self, m):
         self._log(DEBUG, "Switch to new keys ...")
         self._activate_inbound()
         # can also free a bunch of stuff here
